@@ -98,6 +98,29 @@ func checkC09(r *harness.Run) harness.Coverage {
 			"sort_by(a, &to_string(k))[*].t", "max_by(a, &length(to_string(k))).t", "sort_by(a, &[k,t][0])[*].t", "sort_by(sort_by(a, &t), &k)[*].t",
 			"sort_by(a, &k) | [0].t", "reverse(sort_by(a, &k))[*].t"}, [][]interface{}{objArrays}},
 	}
+	// larger arrays (a structured family, not exhaustive): lengths 13..64 with heavily tied keys,
+	// ascending / descending / periodic patterns — sorting code switches algorithm above ~12 elements
+	var bigObjArrays, bigNumArrays, bigStrArrays []interface{}
+	for _, n := range []int{13, 16, 25, 40, 64} {
+		for _, pat := range []func(i int) int{func(i int) int { return i % 2 }, func(i int) int { return i % 3 }, func(i int) int { return (i * 7) % 5 }, func(i int) int { return n - i }, func(i int) int { return 0 }, func(i int) int { return (i * i) % 7 }} {
+			oa, ob := make([]interface{}, n), make([]interface{}, n)
+			na, sa := make([]interface{}, n), make([]interface{}, n)
+			for i := 0; i < n; i++ {
+				oa[i] = map[string]interface{}{"k": float64(pat(i)), "t": float64(i)}
+				ob[i] = map[string]interface{}{"k": string(rune('a' + pat(i)%26)), "t": float64(i)}
+				na[i] = float64(pat(i))
+				sa[i] = string(rune('a'+pat(i)%26)) + string(rune('a'+i%3))
+			}
+			bigObjArrays = append(bigObjArrays, oa, ob)
+			bigNumArrays = append(bigNumArrays, na)
+			bigStrArrays = append(bigStrArrays, sa)
+		}
+	}
+	groups = append(groups,
+		c09Group{[]string{"sort_by(a, &k)[*].t", "max_by(a, &k).t", "min_by(a, &k).t", "sort_by(a, &t)[*].t", "reverse(sort_by(a, &k))[*].t", "sort_by(sort_by(a, &t), &k)[*].t", "map(&t, a)", "length(sort_by(a, &k))"}, [][]interface{}{bigObjArrays}},
+		c09Group{[]string{"sort(a)", "max(a)", "min(a)", "sum(a)", "avg(a)", "reverse(a)", "length(a)", "sort(a)[0]", "sort(a)[-1]"}, [][]interface{}{bigNumArrays}},
+		c09Group{[]string{"sort(a)", "max(a)", "min(a)", "reverse(a)", "join('', a)", "length(join(',', a))"}, [][]interface{}{bigStrArrays}},
+	)
 	var total conformStats
 	nexpr, ndocs := 0, 0
 	fields := []string{"a", "b", "c"}
@@ -142,6 +165,29 @@ func checkC09(r *harness.Run) harness.Coverage {
 			sampleExprs(r, exprs[:1], docs[len(docs)/2:])
 		}
 	}
+	// pairs of calls with literal arguments inside ONE expression (a per-expression memo keyed on a
+	// lossy rendering of the arguments would conflate them): 1 vs "1", ["a b"] vs ["a","b"], ...
+	confusable := []string{"`1`", "`\"1\"`", "`true`", "`\"true\"`", "`null`", "`\"<nil>\"`", "`1.5`", "`\"1.5\"`", "`[\"a b\"]`", "`[\"a\",\"b\"]`", "`[1,2]`", "`[\"1\",\"2\"]`", "`\"[1 2]\"`",
+		"`{\"a\":1}`", "`\"map[a:1]\"`", "`[]`", "`\"[]\"`", "`{}`", "`\"\"`", "`[[1],[2]]`", "`[[1,2]]`", "'a'", "`[\"a\"]`"}
+	var pairExprs []exprCase
+	for _, fn := range []string{"type", "to_string", "to_array", "length", "not_null", "to_number", "reverse", "sort", "max", "sum", "keys", "abs", "join(',', %s)", "contains(%s, `1`)", "contains(%s, 'a')"} {
+		call := func(arg string) string {
+			if strings.Contains(fn, "%s") {
+				return strings.Replace(fn, "%s", arg, -1)
+			}
+			return fn + "(" + arg + ")"
+		}
+		for _, x := range confusable {
+			for _, y := range confusable {
+				if x != y {
+					pairExprs = append(pairExprs, exprFromText("["+call(x)+", "+call(y)+"]"))
+				}
+			}
+		}
+	}
+	stp := conform(r, pairExprs, univ.Js(`{"a":1}`), conformOpts{})
+	total.add(stp)
+	nexpr += len(pairExprs)
 	// to_number over short strings: exact where pinned, weak oracle in the gap
 	syms := []string{"0", "1", "-", "+", ".", "e", "x", "_", " ", "a", "inf", "nan"}
 	var strs2 []string
